@@ -25,3 +25,60 @@ pub fn flags_byte(b: &[u8]) -> (bool, String) {
     let ok = got.is_some() == want && got.map(|f| f.bits() == b).unwrap_or(true) && Flags::try_from(b).is_ok() == want;
     (!ok, format!("byte {b:#04x} -> {got:?}"))
 }
+
+/// C12 (decoding): the clauses of `AuthenticatorData::from_slice`, re-evaluated on one concrete input.
+pub fn authdata_decode(arg: &str) -> (bool, String) {
+    use passkey_types::ctap2::AuthenticatorData;
+    // `<hex>` or `<hex>|whole`: the second form states that every flagged section is present and well-formed CBOR
+    let whole = arg.ends_with("|whole");
+    let v = &crate::hex(arg.split('|').next().unwrap_or(""))[..];
+    let r = AuthenticatorData::from_slice(v);
+    let n = v.len();
+    if n < 37 {
+        return (r.is_ok(), format!("{n}-byte input -> {}", if r.is_ok() { "accepted" } else { "rejected" }));
+    }
+    let fb = v[32];
+    if fb & 0x22 != 0 {
+        return (r.is_ok(), format!("flags byte {fb:#04x} has reserved bits -> {}", if r.is_ok() { "accepted" } else { "rejected" }));
+    }
+    let at = fb & 0x40 != 0;
+    let ed = fb & 0x80 != 0;
+    match r {
+        Err(e) => {
+            // an input whose flagged sections are all present and whole must not be judged here (CBOR validity
+            // is outside the clauses); only report the rejection
+            let plain = n == 37 && !at && !ed;
+            (whole || plain, format!("{}rejected: {e:?}", if whole || plain { "well-formed authenticator data " } else { "" }))
+        }
+        Ok(a) => {
+            if n == 37 && (at || ed) {
+                return (true, format!("flags {fb:#04x} announce a section, none present, accepted"));
+            }
+            if a.rp_id_hash() != &v[..32] {
+                return (true, "rp id hash differs from input bytes 0..32".into());
+            }
+            if a.flags.bits() != fb {
+                return (true, format!("flags {:#04x} differ from input byte 32 ({fb:#04x})", a.flags.bits()));
+            }
+            let want = u32::from_be_bytes([v[33], v[34], v[35], v[36]]);
+            if a.counter != Some(want) {
+                return (true, format!("counter {:?}, input bytes 33..37 are big-endian {want}", a.counter));
+            }
+            if a.attested_credential_data.is_some() != at || a.extensions.is_some() != ed {
+                return (true, format!("flags {fb:#04x}: attested section {}, extensions {}", a.attested_credential_data.is_some(), a.extensions.is_some()));
+            }
+            if let Some(acd) = &a.attested_credential_data {
+                if n < 55 {
+                    return (true, "attested section accepted from fewer than 18 bytes".into());
+                }
+                let declared = u16::from_be_bytes([v[53], v[54]]) as usize;
+                let id = acd.credential_id();
+                if acd.aaguid.0 != v[37..53] || id.len() != declared || n <= 55 + declared || id != &v[55..55 + declared] {
+                    return (true, format!("attested section: declared credential id length {declared}, decoded {} byte(s){}", id.len(),
+                        if id.len() == declared && n > 55 + declared && id != &v[55..55 + declared] { ", contents differ" } else { "" }));
+                }
+            }
+            (false, "accepted, fields equal the input".into())
+        }
+    }
+}
